@@ -63,6 +63,14 @@ type Contract struct {
 	CallAsserts map[string][]Clause // "<callee short name>#<ordinal>" -> assertions checked before that call
 }
 
+// Registry: a package-level map filled by constant Register* calls in init.
+type Registry struct {
+	Global string
+	Via    string
+	Keys   []int64
+	Line   string
+}
+
 type SpecFunc struct {
 	Name string
 	Args []string
@@ -81,6 +89,7 @@ type ContractSet struct {
 	Funcs  map[string]*SpecFunc
 	Macros map[string]*SpecMacro
 	GhostFields map[string]bool
+	Registries  map[string]*Registry
 	Pure   []string // patterns
 	Files  []string
 	Axioms []Clause
@@ -165,6 +174,28 @@ func (cs *ContractSet) loadFile(path string) error {
 				}
 			}
 			cs.Macros[sm.Name] = sm
+			continue
+		}
+		if strings.HasPrefix(l, "registry ") {
+			// registry <global> via <RegisterFunc> keys k1,k2,...
+			f := strings.Fields(l)
+			if len(f) < 6 || f[2] != "via" || f[4] != "keys" {
+				return fmt.Errorf("%s: registry <global> via <func> keys k1,k2,...", loc)
+			}
+			r := &Registry{Global: f[1], Via: f[3], Line: loc}
+			for _, k := range strings.Split(strings.Join(f[5:], ""), ",") {
+				if k = strings.TrimSpace(k); k != "" {
+					v, err := strconv.ParseInt(k, 0, 64)
+					if err != nil {
+						return fmt.Errorf("%s: bad registry key %q", loc, k)
+					}
+					r.Keys = append(r.Keys, v)
+				}
+			}
+			if cs.Registries == nil {
+				cs.Registries = map[string]*Registry{}
+			}
+			cs.Registries[r.Global] = r
 			continue
 		}
 		if strings.HasPrefix(l, "spec ghost ") {
@@ -269,6 +300,10 @@ func (cs *ContractSet) loadFile(path string) error {
 			c := Clause{Src: strings.TrimSpace(e), Line: loc}
 			if m := reLabel.FindStringSubmatch(c.Src); m != nil {
 				c.Label, c.Src = m[1], m[2]
+			}
+			if strings.HasPrefix(c.Src, "?") {
+				c.Optional = true
+				c.Src = strings.TrimSpace(c.Src[1:])
 			}
 			key = strings.TrimSpace(key)
 			cur.CallAsserts[key] = append(cur.CallAsserts[key], c)
